@@ -49,7 +49,8 @@ def small_case(draw):
     plain = draw(st.integers(0, 5)) == 0
     dup = (not plain) and draw(st.integers(0, 3)) == 0
     if dup:
-        headers = draw(st.lists(st.sampled_from(['a', 'A', 'a (1)', 'A (1)', 'a (2)', 'A (2)', 'b', 'B', 'a-1']), min_size=ncol, max_size=ncol))
+        headers = draw(st.lists(st.sampled_from(['a', 'A', 'a (1)', 'A (1)', 'a (2)', 'A (2)', 'b', 'B', 'a-1',
+                                                 'growth %', 'growth %', '100%d', '%s', '%%']), min_size=ncol, max_size=ncol))
     else:
         headers = draw(st.lists(st.sampled_from(['c1', 'c2', 'c3', 'name', 'id', 'val'] if plain else HEADERS),
                                 min_size=ncol, max_size=ncol, unique=True))
